@@ -34,7 +34,7 @@ def load_results():
     res = {}
     for root, mp in (("/tmp/seeds", {}), ("/tmp/seeds2", {"C04/mut3": "/tmp/seed_C04b/mut1", "C04/mut4": "/tmp/seed_C04b/mut2",
                                                           "C11/mut3": "/tmp/seed_C11b/mut1", "C11/mut4": "/tmp/seed_C11b/mut2"}),
-                     ("/tmp/seeds3", None), ("/tmp/seeds4", None)):
+                     ("/tmp/seeds3", None), ("/tmp/seeds4", None), ("/tmp/seeds5", None)):
         for f in sorted(glob.glob(os.path.join(root, "results_*.json"))):
             for k, v in json.load(open(f)).items():
                 pid, m = k.split("/")
